@@ -193,3 +193,53 @@ func init() {
 		MinReach: []string{"end"}, TVVectors: 2, Solver: "z3-new -in",
 	})
 }
+
+func init() {
+	register(&Property{
+		ID: "C06", Dirs: []string{"root"},
+		Jobs: func(tier string) []Job {
+			n, pp := 2, 3
+			if tier == "thorough" {
+				n, pp = 3, 4
+			}
+			var steps []string
+			for _, k := range []string{"const_int", "const_float", "const_bool", "const_string", "const_nil", "fn0_counter", "fn0_uf"} {
+				steps = append(steps, k+":z", k+":a")
+			}
+			steps = append(steps, "copy:z:b", "copy:a:b", "copy:a:a", "copy:s:e")
+			srcCol := map[string]string{"int": "a", "float": "f", "bool": "c", "string": "s", "enum": "e"}
+			for _, src := range []string{"int", "float", "bool", "string", "enum"} {
+				for _, res := range []string{"int", "float", "bool", "string"} {
+					st := src
+					if src == "enum" {
+						st = "string"
+					}
+					steps = append(steps, "fn1:z:"+srcCol[src]+"::"+st+">"+res)
+				}
+				steps = append(steps, "fn1:"+srcCol[src]+":"+srcCol[src]+"::"+map[string]string{"int": "int", "float": "float", "bool": "bool", "string": "string", "enum": "string"}[src]+">int")
+			}
+			steps = append(steps, "fn2:z:a:b:int", "fn2:a:a:b:int", "fn2:b:a:b:int", "fn2:z:a:a:int", "fn2:z:f:f:float", "fn2:z:c:c:bool", "fn2:z:s:s:string", "fn2:s:s:s:string", "fn2:z:e:e:enum")
+			steps = append(steps, "upper:z:s", "upper:s:s", "upper:z:e")
+			// sequences: second reads the first's destination; same destination twice; chain through new column
+			steps = append(steps, "fn1:z:a::int>int;fn1:y:z::int>float", "const_int:z;const_float:z", "fn1:a:a::int>int;fn2:b:a:b:int", "copy:z:b;fn2:z:z:a:int", "fn0_counter:z;fn0_counter:y")
+			var jobs []Job
+			for _, s := range steps {
+				jobs = append(jobs, Job{Harness: "VX_C06_apply", Params: P("steps", s, "mode", "apply", "n", itoa(n), "P", itoa(pp))})
+			}
+			for _, s := range []string{"const_int:z", "const_int:a", "fn1:z:a::int>float", "fn1:a:a::int>int", "fn2:z:a:b:int", "fn1:z:s::string>string", "copy:z:f", "const_string:s", "fn1:z:a::int>int;fn1:y:z::int>float"} {
+				jobs = append(jobs, Job{Harness: "VX_C06_apply", Params: P("steps", s, "mode", "filtered", "n", itoa(n), "P", itoa(pp))})
+			}
+			jobs = append(jobs, Job{Harness: "VX_C06_apply", Params: P("steps", "", "mode", "rownums", "n", itoa(n), "P", itoa(pp))})
+			return jobs
+		},
+		Bounds: func(tier string) string {
+			if tier == "thorough" {
+				return "frames of n=3 logical rows over P=4 physical rows in every arrangement, six columns (int,int,float,bool,string,enum), instruction lists of length 1-2 over constants, column copies, zero-argument functions, all 20 single-argument signatures, two-argument functions of every type, ToUpper, destinations new/overlapping sources; FilteredApply with a symbolic int clause; WithRowNums"
+			}
+			return "frames of n=2 logical rows over P=3 physical rows in every arrangement, six columns (int,int,float,bool,string,enum), instruction lists of length 1-2 over constants, column copies, zero-argument functions, all 20 single-argument signatures, two-argument functions of every type, ToUpper, destinations new/overlapping sources; FilteredApply with a symbolic int clause; WithRowNums"
+		},
+		Assume:   []string{"user functions are uninterpreted functions of their arguments (functions returning *string: uninterpreted nullness and one uninterpreted byte)", "ToUpper is checked for structure on cells over {a,B,z}; the rune mapping is C18's"},
+		Outside:  []string{"instruction lists longer than 2", "n > 3"},
+		MinReach: []string{"end"}, TVVectors: 2,
+	})
+}
